@@ -18,10 +18,13 @@
 void wire_srand(unsigned long s);
 void cli_send_handshake_query(const char *prefix);
 
+#include "zcontract.h"
+
 int __wrap_compress2(unsigned char *dest, unsigned long *destLen, const unsigned char *source, unsigned long sourceLen, int level);
 int __wrap_compress2(unsigned char *dest, unsigned long *destLen, const unsigned char *source, unsigned long sourceLen, int level)
 {
 	(void)level;
+	ZCONTRACT("compress2", dest, destLen, source, sourceLen);
 	if (*destLen < sourceLen + 1)
 		return Z_BUF_ERROR;
 	dest[0] = 0x5A;
@@ -33,6 +36,7 @@ int __wrap_compress2(unsigned char *dest, unsigned long *destLen, const unsigned
 int __wrap_uncompress(unsigned char *dest, unsigned long *destLen, const unsigned char *source, unsigned long sourceLen);
 int __wrap_uncompress(unsigned char *dest, unsigned long *destLen, const unsigned char *source, unsigned long sourceLen)
 {
+	ZCONTRACT("uncompress", dest, destLen, source, sourceLen);
 	if (sourceLen < 1 || source[0] != 0x5A)
 		return Z_DATA_ERROR;
 	if (sourceLen - 1 > *destLen)
